@@ -10,7 +10,8 @@ CONSTANTS MaxFields, Pairs   \* Pairs: emit two-field shapes too
 GoTypes == {"string", "*int", "[]uint8", "bool", "float64", "[]string", "*[]string", "time.Time", "*uint64",
             "named-int", "*named-string", "named-strings", "*[]uint8", "*time.Time", "*bool", "*string", "**int", "**string"}   \* user-defined types whose underlying type is supported
 JsonTags == {"a", "b", "", "id", "~", "a,omitempty", "-"}   \* "~": json:"" (the key is there, the name is empty); "a,omitempty": the whole tag is the name, option and all; "-": a name like any other for this library
-ApiTags == {"", "attr", "rel", "rel,", "rel,tt", "rel,tt,inv", "rel,a,b,c", "other", "rel,,inv", "attr,omitempty", "related", "relation,tt"}
+ApiTags == {"", "attr", "rel", "rel,", "rel,tt", "rel,tt,inv", "rel,a,b,c", "other", "rel,,inv", "attr,omitempty", "related", "relation,tt",
+            "rel, tt, inv", " rel,tt", "attr "}   \* white space is part of what a tag says: " rel" is not rel, " tt" is a name
 IdVariants == {"ok", "noapi", "absent", "int", "jsonother", "nojson", "last", "named",
                "tname-attr", "tname-rel", "tname-rel2", "tname-rel4", "named-attr"}
 F(g, j, a) == [gotype |-> g, json |-> j, api |-> a]
